@@ -20,6 +20,86 @@ import os
 import sys
 
 
+DUMPS_KW = {
+    "plain": {}, "indent2": {"indent": 2}, "indent0": {"indent": 0}, "indent4": {"indent": 4}, "indentNone": {"indent": None},
+    "compact-seps": {"separators": (",", ":")}, "utf8": {"ensure_ascii": False}, "sort_keys": {"sort_keys": True},
+    "default-str": {"default": str}, "pydantic-base": {"indent": None, "separators": (",", ":"), "default": str},
+}
+
+
+def dumps_variant(fast_json, v, how):
+    """the encoder entry points: dumps with the keyword arguments callers pass, dump() to a text stream"""
+    import io
+
+    try:
+        if how == "file":
+            fp = io.StringIO()
+            fast_json.dump(v, fp)
+            return {"text": fp.getvalue()}
+        if how == "file-indent2":
+            fp = io.StringIO()
+            fast_json.dump(v, fp, indent=2)
+            return {"text": fp.getvalue()}
+        return {"text": fast_json.dumps(v, **DUMPS_KW[how])}
+    except Exception as ex:  # noqa: BLE001
+        return {"exc": type(ex).__name__}
+
+
+def loads_variant(fast_json, json_h, text, how):
+    """the decoder entry points: loads of str / bytes / bytearray, load() from a text / binary stream"""
+    import io
+
+    try:
+        if how == "str":
+            r = fast_json.loads(text)
+        elif how == "bytes":
+            r = fast_json.loads(text.encode("utf-8"))
+        elif how == "bytearray":
+            r = fast_json.loads(bytearray(text.encode("utf-8")))
+        elif how == "file-text":
+            r = fast_json.load(io.StringIO(text))
+        elif how == "file-bytes":
+            r = fast_json.load(io.BytesIO(text.encode("utf-8")))
+        else:
+            raise ValueError(how)
+        return {"v": json_h.of_py(r)}
+    except Exception as ex:  # noqa: BLE001
+        return {"exc": type(ex).__name__}
+
+
+def reuse_check(fast_json, v):
+    """the same object encoded again after the caller changed it, the same text decoded twice with the
+    first result changed in between: each call must stand on its own"""
+    import copy
+
+    out = {}
+    try:
+        if isinstance(v, (list, dict)):
+            t1 = fast_json.dumps(v)
+            w = copy.deepcopy(v)
+            if isinstance(v, list):
+                v.append("sentinel")
+                w.append("sentinel")
+            else:
+                v["sentinel"] = [None]
+                w["sentinel"] = [None]
+            # `w` is an independent, equal object: a stale (memoised) encoding of `v` would differ from its text
+            out["dumps_sees_mutation"] = fast_json.dumps(v) == fast_json.dumps(w) != t1
+            a = fast_json.loads(t1)
+            b0 = copy.deepcopy(a)
+            if isinstance(a, list):
+                a.append("sentinel")
+            else:
+                a["sentinel"] = 1
+            b = fast_json.loads(t1)
+            out["loads_independent"] = (b == b0) and (b is not a)
+        t = fast_json.dumps(v)
+        out["dumps_repeatable"] = fast_json.dumps(v) == t
+    except Exception as ex:  # noqa: BLE001
+        out["exc"] = type(ex).__name__
+    return out
+
+
 def measure_limits(fast_json):
     """deepest nesting for which dumps AND loads of this configuration work, per container kind
     (beyond it both real decoders / encoders run into the interpreter's recursion limit), and what the
@@ -99,6 +179,12 @@ def main():
             except ImportError:
                 imp = False
             ans = {"has_orjson": bool(fast_json.HAS_ORJSON), "orjson_importable": imp}
+        elif op == "dumps2":
+            ans = {"out": [dumps_variant(fast_json, json_h.to_py(it["v"]), it.get("how", "plain")) for it in req["items"]]}
+        elif op == "loads2":
+            ans = {"out": [loads_variant(fast_json, json_h, it["t"], it.get("how", "str")) for it in req["items"]]}
+        elif op == "reuse":
+            ans = {"out": [reuse_check(fast_json, json_h.to_py(t)) for t in req["values"]]}
         elif op == "limits":
             ans = measure_limits(fast_json)
         elif op == "dumps":
